@@ -756,8 +756,9 @@ impl<'a> Parser<'a> {
                 })
             }
             Some('#') => self.fragment_only(base_url, input),
-            Some('/') | Some('\\') => {
-                let (slashes_count, remaining) = input.count_matching(|c| matches!(c, '/' | '\\'));
+            Some('/') | Some('\\') if first_char == Some('/') || scheme_type.is_special() => {
+                let (slashes_count, remaining) = input
+                    .count_matching(|c| c == '/' || (c == '\\' && scheme_type.is_special()));
                 if slashes_count >= 2 {
                     self.log_violation_if(SyntaxViolation::ExpectedDoubleSlash, || {
                         input
